@@ -81,6 +81,7 @@ func (sh *stateHolder) updateState(fn func(*DbState)) {
 	fn(&newState)
 	if newState.Meta != oldState.Meta {
 		sh.set(&newState)
+		verifStateUpdated(&newState)
 	}
 }
 
@@ -94,6 +95,7 @@ type mergefn func(*meta.Meta, *mergeList) []meta.MergeUpdate
 // It is called by concur.go merger.
 func (db *Database) Merge(fn mergefn, merges *mergeList) {
 	updates := fn(db.GetState().Meta, merges) // outside UpdateState
+	verifPoint("merge.computed")
 	db.UpdateState(func(state *DbState) {
 		m := *state.Meta // copy
 		meta.Apply(&m, updates)
@@ -123,6 +125,7 @@ func (db *Database) persist(exec execPersist, flush bool) *DbState {
 	var newState *DbState
 	db.GetState().Meta.Persist(exec.Submit) // outside UpdateState
 	updates := exec.Results()
+	verifPoint("persist.computed")
 	var off uint64
 	db.UpdateState(func(state *DbState) {
 		m := *state.Meta // copy
